@@ -829,6 +829,12 @@ func GenCont(prop string, seed uint64, thorough bool) *Scenario {
 	if sc.Policy.Kind == "fifo" {
 		sc.Policy.Kind, sc.Policy.P = "rw", 0.2 // these histories are tiny: always pre-empt
 	}
+	if cs.Mode == "ids" && g.p(0.6) {
+		// stalled tasks: a task pre-empted inside Yeast / GenerateId loses a few virtual milliseconds, so the
+		// clock moves between two of its statements (ids must stay unique across a millisecond boundary too)
+		sc.Policy.StallP, sc.Policy.StallMs = 0.5, g.pick(1, 2, 5)
+		sc.FaultFree = false
+	}
 	sc.MaxSteps = 20000
 	return sc
 }
